@@ -1,13 +1,29 @@
-//! Protobuf runtime verbs and streams (C05, C06, C10, C18).
+//! Protobuf runtime verbs and streams (C05, C06, C10, C18).  The code lives in harness/pbshared
+//! (shared with the emitted-code runner `pbrun`).
 use std::io::Write;
 
 use crate::val::*;
 use crate::Oracle;
 
-pub fn exec(_verb: &str, _items: &[Sexp], _o: &mut Oracle) -> Option<String> {
-    None
+#[path = "../../pbshared/mod.rs"]
+pub mod shared;
+
+pub fn exec(verb: &str, items: &[Sexp], o: &mut Oracle) -> Option<String> {
+    if !verb.starts_with("pb") { return None; }
+    shared::rtverbs::exec(verb, items, o).or_else(|| shared::adv::exec(verb, items, o)).or_else(|| shared::refcodec::exec(verb, items, o)).or_else(|| shared::msgverbs::exec(verb, items, o))
 }
 
-pub fn gen(_stream: &str, _tier: &str, _seed: u64, _out: &mut dyn Write) -> bool {
-    false
+pub fn gen(stream: &str, tier: &str, seed: u64, out: &mut dyn Write) -> bool {
+    let thorough = tier == "thorough";
+    let mut r = Rng(seed ^ 0x9b0b);
+    let mut lines = vec![];
+    match stream {
+        "C05" => { shared::rtverbs::gen_scalar_level(&mut r, thorough, &mut lines); shared::msgverbs::gen_message_level(&mut r, thorough, &mut lines); shared::adv::gen_wrappers(&mut r, thorough, &mut lines); }
+        "C06" => { shared::refcodec::gen_spec_level(&mut r, thorough, &mut lines); }
+        "C18" => { shared::msgverbs::gen_merge_level(&mut r, thorough, &mut lines); }
+        "C10" => { shared::adv::gen_adversarial(&mut r, thorough, &mut lines); }
+        _ => return false,
+    }
+    for l in lines { let _ = writeln!(out, "{}", l); }
+    true
 }
